@@ -50,6 +50,15 @@ class _SiteFlow(MustFlow):
                 self.bindings.setdefault(n.targets[0].id, []).append(n.value)
         self.sites = []          # dict per site
         self.problems = []
+        self.site_cls = {}
+        # statement -> (enclosing block, index): to look at what follows a storing use
+        self.where = {}
+        for n in ast.walk(fi.node):
+            for fld in ('body', 'orelse', 'finalbody'):
+                blk = getattr(n, fld, None)
+                if isinstance(blk, list):
+                    for i, st in enumerate(blk):
+                        self.where[id(st)] = (blk, i)
 
     def _names_in(self, expr, depth=0, seen=None):
         seen = seen if seen is not None else set()
@@ -63,7 +72,28 @@ class _SiteFlow(MustFlow):
                         out |= self._names_in(v, depth + 1, seen)
         return out
 
+    def _ctor_default_none(self, cls_fq, attr):
+        """does the constructor of the class leave `attr` None (self.attr = None, unconditionally)?"""
+        ci = self.repo.cls(cls_fq)
+        init = self.repo.resolve_method(ci, '__init__')
+        if init is None:
+            return False
+        for st in body_stmts(init):
+            if isinstance(st, ast.Assign) and len(st.targets) == 1 and ntext(st.targets[0]) == 'self.' + attr:
+                return isinstance(st.value, ast.Constant) and st.value.value is None
+        return False
+
     def refine(self, test, branch, state):
+        # if X.attr is not None: N.attr = X.attr   -- on the other side X.attr is None, which is what the
+        # constructor of N already stored
+        if isinstance(test, ast.Compare) and len(test.ops) == 1 and isinstance(test.comparators[0], ast.Constant) \
+                and test.comparators[0].value is None and isinstance(test.ops[0], (ast.Is, ast.IsNot)) and \
+                (isinstance(test.ops[0], ast.Is) == branch):
+            txt = ntext(test.left)
+            for f in list(state):
+                if f[0] == 'need' and txt == '%s.%s' % (f[3], f[2]) and \
+                        self._ctor_default_none(self.site_cls.get(f[4], ''), f[2]):
+                    state = state | {('set', f[1], f[2], f[4])}
         ic = isinstance_classes(test)
         if ic and branch:
             x, names = ic
@@ -84,16 +114,36 @@ class _SiteFlow(MustFlow):
                     state = frozenset(f for f in state if not (f[0] in ('need', 'set') and f[1] == t.id))
                     for x in srcs:
                         attr = set_attr_of(self.repo, k)
+                        self.site_cls[id(node)] = k.fq
                         state = state | {('need', t.id, attr, x, id(node))}
                         self.sites.append({'new': t.id, 'cls': k.fq, 'source': x, 'attr': attr,
                                            'call': node.value, 'stmt': node})
+            # a local name for the set:  s = X.attr   (flow-sensitive: the name may be reused elsewhere)
+            if isinstance(t, ast.Name):
+                state = frozenset(f for f in state if not (f[0] == 'alias' and f[1] == t.id))
+                if isinstance(node.value, ast.Attribute) and isinstance(node.value.value, ast.Name):
+                    state = state | {('alias', t.id, ntext(node.value))}
+                elif isinstance(node.value, ast.Name):
+                    for f in list(state):
+                        if f[0] == 'alias' and f[1] == node.value.id:
+                            state = state | {('alias', t.id, f[2])}
             # N.attr = X.attr
             if isinstance(t, ast.Attribute) and isinstance(t.value, ast.Name):
                 for f in list(state):
                     if f[0] == 'need' and f[1] == t.value.id and f[2] == t.attr:
                         from .common import expand_locals
                         val = ntext(expand_locals(self.fi.node, node.value))      # src = constr.support; x.support = src
-                        if val == '%s.%s' % (f[3], t.attr):
+                        want = '%s.%s' % (f[3], t.attr)
+                        if isinstance(node.value, ast.Name) and ('alias', node.value.id, want) in state:
+                            val = want
+                        # M.attr, where M already received X.attr
+                        v = node.value
+                        if isinstance(v, ast.Attribute) and isinstance(v.value, ast.Name) and v.attr == t.attr:
+                            for g in state:
+                                if g[0] == 'need' and g[1] == v.value.id and g[2] == t.attr and g[3] == f[3] and \
+                                        ('set', g[1], g[2], g[4]) in state:
+                                    val = want
+                        if val == want:
                             state = state | {('set', f[1], f[2], f[4])}
         return state
 
@@ -123,8 +173,49 @@ class _SiteFlow(MustFlow):
                             isinstance(node.targets[0], ast.Attribute) and \
                             node.targets[0].value is n:
                         continue
+                    # putting the object into a container does not read it: the set may still be assigned by
+                    # the statements that follow at once (the container holds the same object)
+                    if self._storing_use(node, nm) and self._assigned_next(node, f):
+                        continue
                     self.problems.append((f, node))
                     break
+
+    @staticmethod
+    def _storing_use(node, nm):
+        """X.append(nm) / X.extend([.., nm, ..]) / lst = [.., nm, ..]: nm is only stored"""
+        if isinstance(node, ast.Expr) and isinstance(node.value, ast.Call) and \
+                isinstance(node.value.func, ast.Attribute) and node.value.func.attr in ('append', 'extend', 'insert') \
+                and not node.value.keywords:
+            return all(isinstance(a, (ast.Name, ast.Constant)) or
+                       (isinstance(a, (ast.List, ast.Tuple)) and all(isinstance(e, ast.Name) for e in a.elts))
+                       for a in node.value.args)
+        if isinstance(node, ast.Assign) and len(node.targets) == 1 and isinstance(node.targets[0], ast.Name) and \
+                isinstance(node.value, (ast.List, ast.Tuple)) and all(isinstance(e, ast.Name) for e in node.value.elts):
+            return True
+        return False
+
+    def _assigned_next(self, node, f):
+        """the statements after `node` in its block, up to the assignment N.attr = X.attr, are all storing uses or
+        attribute assignments (nothing that could look at the stored object)"""
+        loc = self.where.get(id(node))
+        if loc is None:
+            return False
+        blk, i = loc
+        want = '%s.%s' % (f[3], f[2])
+        for st in blk[i + 1:]:
+            if isinstance(st, ast.Assign) and len(st.targets) == 1 and isinstance(st.targets[0], ast.Attribute):
+                if ntext(st.targets[0]) == '%s.%s' % (f[1], f[2]) and ntext(st.value) == want:
+                    return True
+                if isinstance(st.value, (ast.Attribute, ast.Name, ast.Constant)):
+                    continue
+                return False
+            if any(self._storing_use(st, nm) for nm in [f[1]]) or \
+                    (isinstance(st, ast.Expr) and isinstance(st.value, ast.Call) and
+                     isinstance(st.value.func, ast.Attribute) and st.value.func.attr in ('append', 'extend')
+                     and all(isinstance(a, ast.Name) for a in st.value.args)):
+                continue
+            return False
+        return False
 
 
 def find_sites(repo, fi):
